@@ -44,7 +44,8 @@ def cases(rng, tier):
             hq = []
             for k in ks[:4]:
                 t = (bs[k] + (bs[k + 1] - bs[k]) * rng.choice([0.25, 0.5, 0.75])) / 1000.0
-                hq += [rng.choice("yr") + fhex(t), "d00000000"]
+                q = rng.choice("yr") + fhex(t)
+                hq += [q, "d00000000"] + ([q] if rng.random() < 0.6 else [rng.choice("yr") + fhex(t)])
             if hq:
                 yield ("yaw h %s %s" % (hexs(b), ",".join(hq)), "used-player-duration")
     # blocks longer than 64 KiB (more than 16383 setpoints) and more than 65535 setpoints, probed in the tail
